@@ -103,6 +103,21 @@ impl Raw {
         }
     }
 
+    /// Blocking OS-level connect (no await point between several of these and whatever the
+    /// caller does next): the connection sits in the listener's queue.
+    pub fn connect_blocking(ep: &str) -> Result<Raw, std::io::Error> {
+        let (tcp, addr) = split_ep(ep).map_err(|e| std::io::Error::new(std::io::ErrorKind::InvalidInput, e))?;
+        if tcp {
+            let s = std::net::TcpStream::connect(addr.as_str())?;
+            s.set_nonblocking(true)?;
+            Ok(Raw::Tcp(TcpStream::from_std(s)?))
+        } else {
+            let s = std::os::unix::net::UnixStream::connect(addr.as_str())?;
+            s.set_nonblocking(true)?;
+            Ok(Raw::Unix(UnixStream::from_std(s)?))
+        }
+    }
+
     pub async fn write_all(&mut self, b: &[u8]) -> std::io::Result<()> {
         match self {
             Raw::Tcp(s) => s.write_all(b).await,
